@@ -1261,8 +1261,11 @@ def oracle(case, obs):
         bf = o.get("builder_from_config")
         if bf is not None and (bf["err"] or bf["warn"] or bf["hash"] != b["hash"] or bf["name"] != b["name"] or bf["version"] != b["version"]):
             bad("builder-from-config", f"PipelineBuilder.from_config(json) disagrees: {bf}")
-        if b.get("runs") != b0.get("runs"):
-            bad("runs-differ-across-processes", "the same pipeline returns different results in another process")
+        am = o.get("after_modify")
+        if am is not None and (not am["same"] or am["clone_err"] or am["clone_warn"] or not am.get("runs_same", True)):
+            what = ("its configuration now reads differently at " + str(_first_diff(json.loads(b["js_full"]), json.loads(am["now"]))[1])) if not am["same"] \
+                else "its clone fails or warns about a hash mismatch" if am["clone_err"] or am["clone_warn"] else "it returns different results"
+            bad("source-altered-by-derived-builder", f"after Pipeline.modify() and {am['edits']} connect() edits on the DERIVED builder the source pipeline changed: {what}")
     # builder histories: the same builder observed several times with edits in between
     if case["kind"] == "graph":
         for s, o in procs.items():
